@@ -185,6 +185,24 @@ def handle (entry : String) (j : Json) : Except String Json := do
       ("spec", arr nats specLevels),
       ("need", natToJson (needOfXChain ds K)),
       ("cut", natToJson ((buildXChain ds).st.cut (List.replicate n ())))]
+  | "two" =>
+    -- two counted sources behind one C-level object (map / zip, chain, zip_longest), `K` requests
+    let kind ← getStr (← field j "kind")
+    let na ← getNat (← field j "na")
+    let nb ← getNat (← field j "nb")
+    let K ← getNat (← field j "k")
+    let tri (t : Bool × Nat × Nat) : Json := Json.arr [Json.bool t.1, natToJson t.2.1, natToJson t.2.2]
+    let (model, spec) ← match kind with
+      | "mapzip" => pure (twoProbe mapzipDemand K (twoStart na nb),
+                          (List.range K).map fun k => needMapzip na nb (k + 1))
+      | "chain" => pure (twoProbe chainDemand K (twoStart na nb),
+                         (List.range K).map fun k => needChain2 na nb (k + 1))
+      | "longest" => pure (twoProbe longestDemand K (twoStart na nb),
+                           (List.range K).map fun k => needLongest na nb (k + 1))
+      | _ => throw s!"C02: unknown two-source kind {kind}"
+    pure <| Json.mkObj [
+      ("construct", nats [(twoStart na nb).ra, (twoStart na nb).rb]),
+      ("model", arr tri model), ("spec", arr tri spec)]
   | "take" =>
     -- `Stream.take(n)` / `peek(n)` with a spelled count on a source of `len` items
     let len ← getNat (← field j "len")
